@@ -629,6 +629,12 @@ def _judge(rec, tree, known_ids):
     if rec.get("save") != "ok":
         viol.append(dict(what="save failed on a well-formed document", outcome=rec.get("save"), msg=rec.get("msg")))
         return viol, hits
+    # saving over an existing file must leave exactly the bytes of saving to a fresh path
+    if rec.get("pre", "fresh") != "fresh" and rec.get("same_bytes") is False:
+        viol.append(dict(what="saving over an existing file leaves other bytes than saving the same document to a fresh path",
+                         existing=rec.get("pre"), existing_len=rec.get("pre_len"), file_len=rec.get("len"),
+                         fresh_len=rec.get("fresh_len"),
+                         demand="bytes(save d over an existing file) == bytes(save d to a fresh path)"))
     # sentence 1: load(save d) == d
     if rec.get("load") != "same":
         if rec["cls_trim"] and KNOWN_TRIM in known_ids:
@@ -655,7 +661,7 @@ def _oracle(ctx, rec, tree, known_ids, source):
     for h in hits:
         ctx.known_hits[h] = ctx.known_hits.get(h, 0) + 1
     for v in viol:
-        ctx.violations.append(dict({"source": source, "case": rec["i"], "document": rec["doc"]}, **v))
+        ctx.violations.append(dict({"source": source, "case": rec["i"], "document": rec["doc"], "pre": rec.get("pre", "fresh")}, **v))
 
 
 def _simpler(doc):
@@ -741,7 +747,10 @@ def _shrink(ctx, viol, known_ids, rounds=40):
             import shutil
             shutil.rmtree(wd)
         os.makedirs(wd)
-        open(os.path.join(wd, "in.jsonl"), "w").write("".join(json.dumps(c) + "\n" for c in cands))
+        pre = viol.get("pre", "fresh")
+        if pre == "history":
+            pre = "longer"      # the edited document is the one on record; overwrite a longer file with it
+        open(os.path.join(wd, "in.jsonl"), "w").write("".join(json.dumps({"doc": c, "pre": pre}) + "\n" for c in cands))
         rc, o = sh([ctx.harness, "c18", "--replay", os.path.join(wd, "in.jsonl"), "--out", wd], timeout=600)
         if rc != 0:
             break
@@ -753,7 +762,8 @@ def _shrink(ctx, viol, known_ids, rounds=40):
             vs, _ = _judge(rec, tree, known_ids)
             hit = [v for v in vs if v["what"] == what]
             if hit:
-                found = dict({"source": viol["source"].replace(" (minimised)", "") + " (minimised)", "case": viol["case"], "document": rec["doc"]}, **hit[0])
+                found = dict({"source": viol["source"].replace(" (minimised)", "") + " (minimised)", "case": viol["case"],
+                              "document": rec["doc"], "pre": rec.get("pre", "fresh")}, **hit[0])
                 break
         if found is None:
             break
@@ -819,6 +829,14 @@ def run(ctx, known, built):
             trees[key] = tree
             allrecs.append((source, rec))
             stats["cases"] += 1
+            pk = "saved_over_" + rec.get("pre", "fresh")
+            stats[pk] = stats.get(pk, 0) + 1
+            if rec.get("pre") == "longer" and rec.get("pre_len", 0) <= rec.get("fresh_len", 0):
+                ctx.disagreements.append({"what": "harness self-check: the pre-existing file was not longer", "case": rec["i"]})
+            if not rec["wf"] and rec.get("pre", "fresh") != "fresh" and rec.get("same_bytes") is False:
+                ctx.disagreements.append({"what": "saving an ill-formed document over an existing file leaves other bytes than "
+                                                  "saving it to a fresh path", "case": rec["i"], "document": rec["doc"],
+                                          "pre": rec.get("pre")})
             stats["wf" if rec["wf"] else "ill_formed"] += 1
             if rec["wf"] and not (rec["cls_trim"] or rec["cls_forbidden"] or rec["cls_norm"]):
                 stats["wf_outside_classes"] += 1
@@ -947,7 +965,8 @@ def run(ctx, known, built):
                 "ill-formed in one or two ways; every string / number drawn with probability 1/7 resp. 1/6 from the "
                 "literals harvested from norad's source at run time + a fixed list of typical defaults), plus a sweep with "
                 "one document per harvested string (every string field holds it) and per number (every number holds it), "
-                "saved by norad, file parsed by expat and compared with the model's tree, loaded "
+                "saved by norad (three in ten over an existing file: a longer or shorter designspace, arbitrary longer bytes, an empty file, "
+                "or a load-edit-save-in-place history; the bytes must equal those of a save to a fresh path), file parsed by expat and compared with the model's tree, loaded "
                 "by norad and compared with the model's decode; non-trivial = well-formed document (save, re-read and load all "
                 "succeed and the full oracle applies), counted once per distinct document. Decoder side: well-formed saved trees with 1-2 local edits (dropped / "
                 "duplicated / swapped / renamed / unknown attributes and elements, replaced values, integer spellings), "
@@ -994,7 +1013,8 @@ def replay(ctx, path):
         print("recorded when the check ran:", json.dumps(trees[0].get("load"), ensure_ascii=False)[:600])
         return 0
     tmp = os.path.join(ctx.scratch, "replay.jsonl")
-    open(tmp, "w").write(json.dumps(doc) + "\n")
+    pre = inp.get("pre", "fresh")
+    open(tmp, "w").write(json.dumps({"doc": doc, "pre": "longer" if pre == "history" else pre}) + "\n")
     rc, o = sh([ctx.harness, "c18", "--replay", tmp, "--out", ctx.scratch])
     if rc != 0:
         print("harness failed:", o[-1000:])
@@ -1004,6 +1024,8 @@ def replay(ctx, path):
     print("well-formed:", rec["wf"], " in class lib-edge-whitespace:", rec["cls_trim"],
           " xml-forbidden-char:", rec["cls_forbidden"], " xml-literal-tab-lf-cr:", rec["cls_norm"])
     print("save:", rec.get("save"), " load:", rec.get("load"), rec.get("msg", ""))
+    print("target path held before the save:", rec.get("pre"), "(%s bytes)" % rec.get("pre_len"), " file:", rec.get("len"),
+          "bytes; fresh path:", rec.get("fresh_len"), "bytes; same bytes:", rec.get("same_bytes"))
     if rec.get("load") == "other":
         print("loaded:", json.dumps(rec["loaded"], ensure_ascii=False))
     if rec.get("save") == "ok":
